@@ -24,7 +24,7 @@ PLAN = {
     "thorough": {"shards": 16, "shard_timeout": 3600, "case_timeout": 60, "grammars": 7000, "max_case_timeouts": 80},
 }
 THRESHOLDS = {
-    "quick": {"step_cases_whose_fitness_function_reuses_its_result_list": 5, "arguments_compared": 5000, "end_of_history_compared": 3000, "step_applications": 800, "tree_nodes_snapshotted": 20000, "kind:tree": 500, "kind:ge": 300, "kind:sge": 300, "kind:dsge": 300, "kind:stack": 100, "set:step_kinds": 8, "lazy_dsge_sessions": 50, "step_cases_with_nan_or_infinite_fitness": 15, "operator_arguments_never_mapped": 100},
+    "quick": {"step_cases_with_hand_written_programs": 10, "step_cases_whose_fitness_function_reuses_its_result_list": 5, "arguments_compared": 5000, "end_of_history_compared": 3000, "step_applications": 800, "tree_nodes_snapshotted": 20000, "kind:tree": 500, "kind:ge": 300, "kind:sge": 300, "kind:dsge": 300, "kind:stack": 100, "set:step_kinds": 8, "lazy_dsge_sessions": 50, "step_cases_with_nan_or_infinite_fitness": 15, "operator_arguments_never_mapped": 100},
     "thorough": {"arguments_compared": 100000, "end_of_history_compared": 60000, "step_applications": 15000},
 }
 
@@ -94,6 +94,33 @@ def dsge_extends(s0, s1):
         if k not in d1 or d1[k][0] != i or d1[k][1][: len(genes)] != genes:
             return False
     return True
+
+
+def handwritten(node):
+    """The same program built again through the classes' own constructors - no gengy_* attribute anywhere (None: a node
+    that is no dataclass, whose constructor arguments cannot be read off it)."""
+    import dataclasses
+
+    if isinstance(node, list):
+        items = [handwritten(x) for x in node]
+        return None if any(i is None for i in items) else items
+    if isinstance(node, tuple):
+        items = [handwritten(x) for x in node]
+        return None if any(i is None for i in items) else tuple(items)
+    if dataclasses.is_dataclass(node) and not isinstance(node, type):
+        kw = {}
+        for f in dataclasses.fields(node):
+            v = handwritten(getattr(node, f.name))
+            if v is None:
+                return None
+            kw[f.name] = v
+        try:
+            return type(node)(**kw)
+        except Exception:  # noqa
+            return None
+    if isinstance(node, (bool, int, float, str)):
+        return node
+    return None
 
 
 def snap_individual(kind, model, ind, rec=None):
@@ -319,6 +346,19 @@ def run_steps(ctx, case, rec):
             rec.count("op_raised")
     if len(pop) < case["pop"]:
         return
+    if kind == "tree" and case["seed"] % 3 == 1:
+        # programs WRITTEN BY HAND (the documented seeding route: InjectInitialPopulationWrapper, geml's initial_population):
+        # built with the classes' own constructors, they carry none of the gengy_* attributes. Whatever a step needs to
+        # know about them, it may not write onto them - node metadata "absent" is part of what must stay as it was.
+        n_hand = 0
+        for k in range(len(pop) - 1, -1, -2):
+            h = handwritten(pop[k].genotype)
+            if h is not None:
+                pop[k] = Individual(h, rep)
+                n_hand += 1
+        if n_hand:
+            rec.count("step_cases_with_hand_written_programs")
+            rec.count("hand_written_programs_in_step_input", n_hand)
     for ind in pop[: len(pop) // 2]:
         ev.evaluate(prob, [ind])
     born = {id(i): (i, snap_individual(kind, model, i, rec)) for i in pop}
